@@ -19,7 +19,7 @@ fn value() -> impl Strategy<Value = f32> + Clone {
 }
 
 /// vectors whose elements share a magnitude class (all small / all large / mixed)
-fn vec_len(n: usize) -> impl Strategy<Value = Vec<f32>> + Clone {
+pub fn vec_len(n: usize) -> impl Strategy<Value = Vec<f32>> + Clone {
     (dense_len(n), prop_oneof![5 => Just(0u8), 2 => Just(1u8), 1 => Just(2u8)], any::<u32>(), any::<u64>()).prop_map(|(v, mode, blocks, comps)| {
         // sparse vectors: whole aligned blocks of eight and / or single components set to zero
         let mut v = v;
@@ -42,7 +42,7 @@ fn vec_len(n: usize) -> impl Strategy<Value = Vec<f32>> + Clone {
 }
 
 /// any finite bit pattern: subnormals, signed zeros, extreme exponents
-fn raw_len(n: usize) -> impl Strategy<Value = Vec<f32>> + Clone {
+pub fn raw_len(n: usize) -> impl Strategy<Value = Vec<f32>> + Clone {
     proptest::collection::vec(prop_oneof![
         4 => any::<u32>().prop_map(f32::from_bits).prop_filter_map("finite", |x| if x.is_finite() { Some(x) } else { None }),
         2 => (0u32..0x0080_0000, any::<bool>()).prop_map(|(m, s)| f32::from_bits(m | if s { 0x8000_0000 } else { 0 })),
@@ -223,7 +223,7 @@ fn check_dist_with(c: &DistCase, r: &DistCase) -> CaseResult {
         .label_if(same_packed, "triangle_checked"))
 }
 
-fn dist_case(la: usize, lb: usize, lc: usize) -> impl Strategy<Value = DistCase> {
+pub fn dist_case(la: usize, lb: usize, lc: usize) -> impl Strategy<Value = DistCase> {
     (vec_len(la), vec_len(lb), vec_len(lc), (0.01f32.ln()..100f32.ln()).prop_map(|x: f32| x.exp()), any::<bool>())
         .prop_map(|(a, b, c, k, near)| {
             // sometimes b is a small perturbation of a (distance ~ 0, cosine ~ 1)
